@@ -398,6 +398,19 @@ def apply_event(tt_mod, objs, ev):
             if metadata_problem(t2) or list(t2.ranks) != list(t.ranks):
                 raise Mismatch('rank', 'TT(array, threshold=%g): ranks %r for the tensor, %r for the tensor scaled by 2^-44' % (
                     kw['threshold'], t.ranks, getattr(t2, 'ranks', None)))
+        if not metadata_problem(t):
+            # the decomposition is homogeneous: the same data in other units (x 2^-80 and x 2^80, exact in floating point;
+            # every entry then lies below / above any absolute round-off constant) give the same ranks and the scaled tensor
+            ref = contract(t.cores)
+            for e_ in (-80, 80):
+                t3 = TT(x * 2.0 ** e_, **kw)
+                if metadata_problem(t3) or list(t3.ranks) != list(t.ranks):
+                    raise Mismatch('rank', 'TT(array%s): ranks %r for the tensor, %r for the tensor scaled by 2^%d' % (
+                        ''.join(', %s=%r' % kv for kv in kw.items()), t.ranks, getattr(t3, 'ranks', None), e_))
+                got3 = contract(t3.cores) * 2.0 ** -e_
+                if got3.shape != ref.shape or np.max(np.abs(got3 - ref)) > 1e-9 * max(1e-300, float(np.max(np.abs(ref)))):
+                    raise Mismatch('value', 'TT(array%s) of the tensor scaled by 2^%d is not the scaled decomposition' % (
+                        ''.join(', %s=%r' % kv for kv in kw.items()), e_))
         return [t]
     if op in ('Svd', 'Pinv'):
         return svd_pinv_event(tt_mod, A, ev, objs)
@@ -408,6 +421,22 @@ def apply_event(tt_mod, objs, ev):
     if op == 'TT2QTT':
         rds, cds = [list(x) for x in ev['rds']], [list(x) for x in ev['cds']]
         A.copy().tt2qtt(rds, cds)                                   # list arguments used twice: a call must not consume them
+        if not metadata_problem(A) and A.order >= 1:
+            # splitting is exact and homogeneous: the same train in other units (first core x 2^-80 / 2^80, exact in floating
+            # point) gives the scaled tensor; a train whose scale is spread unevenly over the cores (x 2^-60, .., x 2^60) too
+            ref = contract(A.cores)
+            for label, fs in (('first core x 2^-80', [-80] + [0] * (A.order - 1)), ('first core x 2^80', [80] + [0] * (A.order - 1)),
+                              ('cores x 2^-60 .. x 2^60', ([-60] + [0] * (A.order - 2) + [60]) if A.order >= 2 else [0])):
+                B = A.copy()
+                for k_, e_ in enumerate(fs):
+                    B.cores[k_] = B.cores[k_] * 2.0 ** e_
+                q_ = B.tt2qtt(rds, cds)
+                if metadata_problem(q_):
+                    raise Mismatch('metadata', 'tt2qtt of a re-scaled train (%s): %s' % (label, metadata_problem(q_)))
+                got_ = contract(q_.cores).reshape(-1) * 2.0 ** -sum(fs)
+                if got_.shape != ref.reshape(-1).shape or np.max(np.abs(got_ - ref.reshape(-1))) > 1e-9 * max(1e-300, float(np.max(np.abs(ref)))):
+                    raise Mismatch('value', 'tt2qtt of the same train in other units (%s) does not give the scaled tensor '
+                                            '(relative error %.3e)' % (label, np.max(np.abs(got_ - ref.reshape(-1))) / max(1e-300, float(np.max(np.abs(ref))))))
         return res_or_self(A.tt2qtt(rds, cds))
     if op == 'BuildCore':
         def blk(b, vec):
